@@ -131,9 +131,12 @@ def tolerant_ok(pid_list=("C01", "C03", "C14")):
     return False
 
 
-def run(ctx, regimes_quick, regimes_thorough, rule, assumptions, extra_bins=(), extra_stream=None):
+def run(ctx, regimes_quick, regimes_thorough, rule, assumptions, extra_bins=(), extra_stream=None,
+        translate=(), extra_modules=()):
     pid = ctx.pid
-    vlib.prove(ctx, [f"KrillModel.Props.{pid}"])
+    if translate:
+        vlib.translate(ctx, list(translate))
+    vlib.prove(ctx, [f"KrillModel.Props.{pid}"] + list(extra_modules))
     private_kmodel(ctx)
     found = False
     if vlib.build_harness(ctx, ["system"] + list(extra_bins)):
